@@ -5,6 +5,7 @@ package discovery
 // (B) large random lists are run and (input, output) records are written for TLC to evaluate Ref on.
 
 import (
+	"syscall"
 	"fmt"
 	"math/rand"
 	"os"
@@ -69,6 +70,19 @@ func c18Run(form string, entries []string, re *regexp.Regexp, dir string) (out [
 		}
 		os.WriteFile(server, []byte(content), 0644)
 		defer os.Remove(server)
+	case "fifo":
+		// the list handed over as a named pipe (what "--servers <(command)" amounts to): a file like any other
+		server = filepath.Join(dir, fmt.Sprintf("servers-%d.fifo", rand.Int63()))
+		if err := syscall.Mkfifo(server, 0644); err != nil {
+			return nil, "mkfifo: " + err.Error()
+		}
+		defer os.Remove(server)
+		go func() {
+			if fd, err := os.OpenFile(server, os.O_WRONLY, 0); err == nil {
+				fd.WriteString(strings.Join(entries, "\n") + "\n")
+				fd.Close()
+			}
+		}()
 	}
 	var d *Discovery
 	if re == nil {
@@ -121,7 +135,7 @@ func TestC18Replay(t *testing.T) {
 			forms = append(forms, "comma") // the comma form cannot express the empty list
 		}
 		if len(entries) >= 1 && entries[len(entries)-1] != "" {
-			forms = append(forms, "file-nl", "file-nonl")
+			forms = append(forms, "file-nl", "file-nonl", "fifo")
 		} else if len(entries) == 0 {
 			forms = append(forms, "file-nl")
 		}
